@@ -87,7 +87,7 @@ def run_harness(h, cfg):
 
 
 def _save_log(h, txt):
-    d = os.path.join(os.path.dirname(HERE), 'evidence', 'replays')
+    d = os.path.join(os.environ.get('VERIF_EVIDENCE_DIR') or os.path.join(os.path.dirname(HERE), 'evidence'), 'replays')
     os.makedirs(d, exist_ok=True)
     p = os.path.join(d, 'kani-%s.log' % h['harness'])
     with open(p, 'w') as f:
